@@ -1,1 +1,3 @@
 pub mod canon;
+pub mod tree;
+pub mod validate;
